@@ -14,11 +14,25 @@
  *   result = <rc> <root_ref> <refs,|-> <ids,|-> <hex inode table> <hex directory table>
  *            (rc of sqfs_serialize_fstree; when the tree could not be built: "-1 build add <i>" = fstree_add_generic
  *            number i failed, "-1 build post" = fstree_post_process failed, "-1 build parse" = bad case line;
- *            the ImgPost tie compares these verdicts with the extracted lib/fstree model) */
+ *            the ImgPost tie compares these verdicts with the extracted lib/fstree model)
+ *
+ * W <same fields as T>: whole image.  As T, with at least 96 prefill bytes; the super block is set up by
+ *   sqfs_super_init before and, after sqfs_serialize_fstree, the steps of sqfs_writer_finish the tree readers depend
+ *   on are performed with the library's own functions: inode_count, sqfs_id_table_write, bytes_used, sqfs_super_write.
+ *   The in-memory file then is [super block | rest of the prefill | inode table | directory table | id table].
+ * stdout: "<model input> | <result as for T> | <hex of the whole file> | <real reader>"
+ *   real reader = what libsquashfs itself reads from that file (sqfs_super_read, sqfs_id_table_read,
+ *   sqfs_dir_reader_create, sqfs_dir_reader_get_full_hierarchy; toy decompressor), as a pre-order listing
+ *     "R <n> { <depth> <hexname|-> <mode> <uid> <gid> <mtime> <ino> <nlink> <xattr> K }*n"  or  "E <rc> <step>"
+ *   K = d <parent_ino> | f <start>:<size>:<sparse>:<frag_idx>:<frag_off>:<w,w,..|-> | l <hex|-> | b <devno> |
+ *       c <devno> | p | s      (the same listing props/C01/reader_driver.ml prints for the C05 reader model) */
 #include "h_common.h"
 #include "simple_writer.h"
 #include "common.h"
 #include "fstree.h"
+#include "dir_tree.h"
+#include "sqfs/dir_reader.h"
+#include "sqfs/id_table.h"
 #include <errno.h>
 
 /* ---- toy compressors: modes 0,1,2 = props/C03/h_dirmeta.c (MetaModel.toy_compress), 3 = zero-run-length
@@ -80,6 +94,37 @@ static sqfs_s32 toy_do_block(sqfs_compressor_t *c, const sqfs_u8 *in, sqfs_u32 s
 
 static toy_t toy;
 static memfile_t mf;
+
+/* the inverse direction (Img.TreeModel.img_uncompress): 0 = "does not fit", < 0 = not a compressed block */
+static sqfs_s32 toy_undo_block(sqfs_compressor_t *c, const sqfs_u8 *in, sqfs_u32 size, sqfs_u8 *out, sqfs_u32 outsize)
+{
+	toy_t *t = (toy_t *)c;
+	sqfs_u32 i, o = 0, n;
+
+	if (t->mode == 3) {
+		for (i = 0; i < size; ) {
+			if (in[i] == 0) {
+				if (i + 1 >= size || in[i + 1] == 0) return SQFS_ERROR_COMPRESSOR;
+				n = in[i + 1];
+				if (o + n > outsize) return 0;
+				memset(out + o, 0, n);
+				o += n;
+				i += 2;
+			} else {
+				if (o + 1 > outsize) return 0;
+				out[o++] = in[i++];
+			}
+		}
+		return (sqfs_s32)o;
+	}
+	if (size != 4) return SQFS_ERROR_COMPRESSOR;
+	n = in[1] | (in[2] << 8) | ((sqfs_u32)in[3] << 16);
+	if (n > outsize) return 0;
+	memset(out, in[0], n);
+	return (sqfs_s32)n;
+}
+
+static toy_t untoy;
 
 static char *tok(void) { return strtok(NULL, " \n"); }
 static unsigned long long num(void) { char *t = tok(); return t ? strtoull(t, NULL, 10) : 0; }
@@ -204,7 +249,113 @@ static void free_file_inodes(fstree_t *fs)
 	}
 }
 
-static void do_case(void)
+
+/* ---- the tree libsquashfs reads back (W) ---- */
+static size_t count_nodes(const sqfs_tree_node_t *n)
+{
+	const sqfs_tree_node_t *it;
+	size_t c = 1;
+
+	for (it = n->children; it != NULL; it = it->next) c += count_nodes(it);
+	return c;
+}
+
+static void dump_words(const sqfs_inode_generic_t *i)
+{
+	size_t k, cnt = i->payload_bytes_used / sizeof(sqfs_u32);
+
+	if (cnt == 0) fputs("-", stdout);
+	for (k = 0; k < cnt; ++k) printf("%s%u", k ? "," : "", i->extra[k]);
+}
+
+static void dump_read_node(const sqfs_tree_node_t *n, unsigned depth)
+{
+	const sqfs_inode_generic_t *i = n->inode;
+	const sqfs_tree_node_t *it;
+	sqfs_u32 xattr = 0xFFFFFFFF;
+	unsigned long long nlink = 1;
+
+	sqfs_inode_get_xattr_index(i, &xattr);
+	switch (i->base.type) {
+	case SQFS_INODE_DIR: nlink = i->data.dir.nlink; break;
+	case SQFS_INODE_EXT_DIR: nlink = i->data.dir_ext.nlink; break;
+	case SQFS_INODE_FILE: nlink = 1; break;
+	case SQFS_INODE_EXT_FILE: nlink = i->data.file_ext.nlink; break;
+	case SQFS_INODE_SLINK: nlink = i->data.slink.nlink; break;
+	case SQFS_INODE_EXT_SLINK: nlink = i->data.slink_ext.nlink; break;
+	case SQFS_INODE_BDEV: case SQFS_INODE_CDEV: nlink = i->data.dev.nlink; break;
+	case SQFS_INODE_EXT_BDEV: case SQFS_INODE_EXT_CDEV: nlink = i->data.dev_ext.nlink; break;
+	case SQFS_INODE_FIFO: case SQFS_INODE_SOCKET: nlink = i->data.ipc.nlink; break;
+	case SQFS_INODE_EXT_FIFO: case SQFS_INODE_EXT_SOCKET: nlink = i->data.ipc_ext.nlink; break;
+	}
+	printf(" %u ", depth);
+	puthex(n->name, strlen((const char *)n->name));
+	printf(" %u %u %u %u %u %llu %u ", (unsigned)i->base.mode, n->uid, n->gid, i->base.mod_time, i->base.inode_number,
+	       nlink, xattr);
+	switch (i->base.type) {
+	case SQFS_INODE_DIR: printf("d %u", i->data.dir.parent_inode); break;
+	case SQFS_INODE_EXT_DIR: printf("d %u", i->data.dir_ext.parent_inode); break;
+	case SQFS_INODE_FILE:
+		printf("f %u:%u:0:%u:%u:", i->data.file.blocks_start, i->data.file.file_size,
+		       i->data.file.fragment_index, i->data.file.fragment_offset);
+		dump_words(i);
+		break;
+	case SQFS_INODE_EXT_FILE:
+		printf("f %llu:%llu:%llu:%u:%u:", (unsigned long long)i->data.file_ext.blocks_start,
+		       (unsigned long long)i->data.file_ext.file_size, (unsigned long long)i->data.file_ext.sparse,
+		       i->data.file_ext.fragment_idx, i->data.file_ext.fragment_offset);
+		dump_words(i);
+		break;
+	case SQFS_INODE_SLINK:
+		fputs("l ", stdout); puthex((const sqfs_u8 *)i->extra, i->data.slink.target_size); break;
+	case SQFS_INODE_EXT_SLINK:
+		fputs("l ", stdout); puthex((const sqfs_u8 *)i->extra, i->data.slink_ext.target_size); break;
+	case SQFS_INODE_BDEV: printf("b %u", i->data.dev.devno); break;
+	case SQFS_INODE_CDEV: printf("c %u", i->data.dev.devno); break;
+	case SQFS_INODE_EXT_BDEV: printf("b %u", i->data.dev_ext.devno); break;
+	case SQFS_INODE_EXT_CDEV: printf("c %u", i->data.dev_ext.devno); break;
+	case SQFS_INODE_FIFO: case SQFS_INODE_EXT_FIFO: fputs("p", stdout); break;
+	case SQFS_INODE_SOCKET: case SQFS_INODE_EXT_SOCKET: fputs("s", stdout); break;
+	default: printf("? %u", i->base.type); break;
+	}
+	for (it = n->children; it != NULL; it = it->next) dump_read_node(it, depth + 1);
+}
+
+static void real_reader(sqfs_file_t *file, int mode)
+{
+	sqfs_tree_node_t *root = NULL;
+	sqfs_dir_reader_t *dr = NULL;
+	sqfs_id_table_t *idt = NULL;
+	sqfs_super_t super;
+	const char *step = "super";
+	int rc;
+
+	untoy.mode = mode;
+	rc = sqfs_super_read(&super, file);
+	if (rc) goto fail;
+	step = "idtbl";
+	idt = sqfs_id_table_create(0);
+	if (idt == NULL) { rc = SQFS_ERROR_ALLOC; goto fail; }
+	rc = sqfs_id_table_read(idt, file, &super, &untoy.base);
+	if (rc) goto fail;
+	step = "dirreader";
+	dr = sqfs_dir_reader_create(&super, &untoy.base, file, 0);
+	if (dr == NULL) { rc = SQFS_ERROR_ALLOC; goto fail; }
+	step = "hierarchy";
+	rc = sqfs_dir_reader_get_full_hierarchy(dr, idt, NULL, 0, &root);
+	if (rc) goto fail;
+	printf("R %zu", count_nodes(root));
+	dump_read_node(root, 0);
+	goto out;
+fail:
+	printf("E %d %s", rc, step);
+out:
+	sqfs_dir_tree_destroy(root);
+	if (dr) sqfs_drop(dr);
+	if (idt) sqfs_drop(idt);
+}
+
+static void do_case(int whole)
 {
 	sqfs_writer_t wr;
 	fstree_defaults_t def;
@@ -217,6 +368,7 @@ static void do_case(void)
 
 	memset(&wr, 0, sizeof(wr));
 	mode = num(); bs = num(); prefill = num();
+	if (whole && prefill < sizeof(sqfs_super_t)) prefill = sizeof(sqfs_super_t);
 	def.uid = num(); def.gid = num(); def.mtime = num(); def.mode = S_IFDIR | onum();
 	n = num();
 	if (fstree_init(&wr.fs, &def)) { puts("img - | -1 init"); return; }
@@ -282,6 +434,10 @@ static void do_case(void)
 	wr.dm = sqfs_meta_writer_create(wr.outfile, wr.cmp, SQFS_META_WRITER_KEEP_IN_MEMORY);
 	wr.dirwr = sqfs_dir_writer_create(wr.dm, 0);
 	wr.super.block_size = (sqfs_u32)bs;
+	if (whole) {
+		if (sqfs_super_init(&wr.super, bs, 0, SQFS_COMP_GZIP)) whole = 0;     /* block size the format does not allow */
+		wr.super.inode_count = wr.fs.unique_inode_count;
+	}
 
 	rc = sqfs_serialize_fstree("mem", &wr);
 
@@ -307,6 +463,20 @@ static void do_case(void)
 	} else {
 		fputs("-", stdout);
 	}
+	if (whole && rc == 0) {
+		int r2 = sqfs_id_table_write(wr.idtbl, wr.outfile, &wr.super, wr.cmp);
+
+		wr.super.bytes_used = wr.outfile->get_size(wr.outfile);
+		if (r2 == 0) r2 = sqfs_super_write(&wr.super, wr.outfile);
+		fputs(" | ", stdout);
+		if (r2) {
+			printf("FINISH-FAILED %d | -", r2);
+		} else {
+			puthex(mf.data, mf.used);
+			fputs(" | ", stdout);
+			if (mode == 2) fputs("-", stdout); else real_reader(wr.outfile, (int)mode);
+		}
+	}
 	putchar('\n');
 
 	free_file_inodes(&wr.fs);      /* serialize_tree_node takes (and frees) the ones it reached */
@@ -324,11 +494,16 @@ int main(void)
 	toy.base.base.refcount = 1 << 20;
 	toy.base.base.destroy = cmp_destroy;
 	toy.base.do_block = toy_do_block;
+	memset(&untoy, 0, sizeof(untoy));
+	untoy.base.base.refcount = 1 << 20;
+	untoy.base.base.destroy = cmp_destroy;
+	untoy.base.do_block = toy_undo_block;
 
 	while (fgets(line, sizeof(line), stdin)) {
 		char *cmd = strtok(line, " \n");
 		if (!cmd) continue;
-		if (!strcmp(cmd, "T")) do_case();
+		if (!strcmp(cmd, "T")) do_case(0);
+		else if (!strcmp(cmd, "W")) do_case(1);
 		else puts("img - | PARSE");
 		fflush(stdout);
 	}
